@@ -124,7 +124,7 @@ theorem structLoop_memberA (m : Member) (hm : WFMemberA m) (lines rest : List LL
       have hattr := structLoop_attr_lines as a l1 (ln :: rest) none acc (forall2_map_right hf1) hattrs
       simp only [List.append_assoc, List.cons_append, List.nil_append] at hattr ⊢
       rw [hattr]
-      simp only [structLoop, hkind, htext, Option.isSome_some, parseStructLine_true_plain name hn.1 t v ht hv, Option.getD_none,
+      simp only [structLoop, hkind, htext, Option.isSome_some, parseStructLine_true_plain name hn t v ht hv, Option.getD_none,
         List.nil_append]
   | valuePlaceholder t v a as ht hv hattrs =>
     have htexts : memberTextsA (.field { name := "__value__", fieldType := t, value := v, attributes := some (a :: as) }) =
@@ -541,7 +541,8 @@ theorem clean_memberTextsA (m : Member) (h : WFMemberA m) : ∀ t ∈ memberText
     simp only [memberTextsA, List.mem_append, List.mem_singleton] at ht
     rcases ht with ht | rfl
     · exact clean_attrTexts clean_fieldAttr _ (.some a as hattrs) t ht
-    · exact clean_member _ (.plain name t' v hn ht' hv)
+    · rw [plain_render_toList name t' v hv]
+      exact clean_plain_line name hn t' v ht' hv
   | valuePlaceholder t' v a as ht' hv hattrs =>
     simp only [memberTextsA, List.mem_append, List.mem_singleton] at ht
     rcases ht with ht | rfl
